@@ -28,6 +28,13 @@ RULE = ("random multifurcating trees (3..14 tips, rooted/unrooted, parent slot a
         "files of 2-4 trees over the same or different tip sets (a name absent from the first tree and present later, absent "
         "names at every position), each printed tree parsed and judged by the oracle against its own input tree (oracle "
         "only: text output carries no neighbour order; a refusal ends the file and the trees printed before it are judged); "
+        "(r5) midpoint on small trees (5..9 tips) where most branches are zero: 50-80% zero at random / everything zero but "
+        "one or two clades (the root inside the zero region, zero inner branches next to it) / random with whole zero "
+        "subtrees and zero inner root branches / zero cherries; thorough tier adds every labelled shape with 4-5 tips x "
+        "every {0,1,2} (4 tips) or {0,1} (5 tips) length pattern with at least half of the branches zero; rooted trees "
+        "whose two root branches carry support x support in {absent, 0, 1/64, 1, 5} (root children inner/inner, one in "
+        "five inner/tip) and lengths in {absent, 0, 1, 5/2}, for unroot, midpoint and outgroups (negative supports are "
+        "not generated: outside the quantifier, UnRoot clamps them to 0); "
         "a case is non-trivial when the operation changed the structure; distinct = distinct case text")
 TRUSTED = ["tree built through NewNode/NewEdge + verif hooks (exact neighbour order); dump through Neigh()/Edges()/Left()/Right()"]
 ASSUMPTIONS = ["math/rand: Intn/Int31n transcribed in Model/Rand.v; the recorded Int63 stream is what the code under test consumes"]
@@ -183,6 +190,128 @@ def root_trees(rng, g, n, hi):
                 x["name"] = y["name"] = "dup"               # two inner nodes with the same name
         yield t, style
 
+def subtree_edges(c):
+    return list(all_edges(c))
+
+def zero_heavy(rng, g, i):
+    """small tree, every branch with a length, most of them zero"""
+    style = ["pzero", "island", "island", "zsub", "cherry", "island2", "island", "zsub"][i % 8]
+    t = g.tree(lo=5, hi=9, maxdeg=4, lenmode="all", supmode="mixed", up_random=rng.random() < 0.6)
+    def pos():
+        return rng.choice([Fraction(1, 2), Fraction(1), Fraction(1), Fraction(2), Fraction(3), Fraction(rng.randrange(1, 257), 64)])
+    E = list(all_edges(t))
+    if style == "pzero":
+        p = rng.choice([0.5, 0.6, 0.7, 0.8])
+        for e, c in E:
+            e["len"] = Fraction(0) if rng.random() < p else pos()
+    elif style in ("island", "island2"):
+        # everything zero but one (two) clades: the root of the structure lies inside the zero region
+        for e, c in E:
+            e["len"] = Fraction(0)
+        cand = [(e, c) for e, c in E if kids(c)] or E
+        for e, c in rng.sample(cand, min(len(cand), 1 if style == "island" else 2)):
+            if rng.random() < 0.8:
+                e["len"] = pos()
+            for e2, _ in subtree_edges(c):
+                if rng.random() < 0.75:
+                    e2["len"] = pos()
+        if rng.random() < 0.3:
+            e, _ = rng.choice(E)
+            e["len"] = pos()
+    elif style == "zsub":
+        for e, c in E:
+            e["len"] = Fraction(0) if rng.random() < 0.3 else pos()
+        inner = [(e, c) for e, c in E if kids(c)]
+        for e, c in rng.sample(inner, min(len(inner), rng.choice([1, 2]))):
+            e["len"] = Fraction(0)
+            for e2, _ in subtree_edges(c):
+                e2["len"] = Fraction(0)
+        for e, c in kids(t):
+            if kids(c) and rng.random() < 0.7:
+                e["len"] = Fraction(0)
+    else:
+        for e, c in E:
+            e["len"] = Fraction(0) if rng.random() < 0.4 else pos()
+        for e, c in E:
+            if kids(c) and all(not kids(x) for _, x in kids(c)):
+                for e2, _ in kids(c):
+                    e2["len"] = Fraction(0)
+                if rng.random() < 0.6:
+                    e["len"] = Fraction(0)
+    return t, "zero-" + style
+
+def zero_exhaustive():
+    """every rooted shape with 4..5 tips (nodes with 2 or 3 children) x every pattern of lengths in {0, 1, 2} (4 tips)
+    or {0, 1} (5 tips) with at least half of the branches zero"""
+    from itertools import product
+    def shapes(ns):
+        if len(ns) == 1:
+            yield ns[0]
+            return
+        # set partitions of ns into 2 or 3 blocks, first block holds ns[0]
+        def parts(ns, k):
+            if k == 1:
+                yield [ns]
+                return
+            rest = ns[1:]
+            for mask in range(1 << len(rest)):
+                a = [ns[0]] + [x for j, x in enumerate(rest) if mask >> j & 1]
+                b = [x for j, x in enumerate(rest) if not mask >> j & 1]
+                if len(b) >= k - 1:
+                    for p in parts(b, k - 1):
+                        yield [a] + p
+        for k in (2, 3):
+            if len(ns) >= k:
+                for p in parts(ns, k):
+                    for sub in product(*[list(shapes(b)) for b in p]):
+                        yield list(sub)
+    def mk(sh, is_root):
+        if not isinstance(sh, list):
+            return {"name": sh, "coms": [], "slots": [] if is_root else [None]}
+        slots = [({"len": None, "sup": None, "pv": None, "coms": []}, mk(c, False)) for c in sh]
+        return {"name": "", "coms": [], "slots": slots if is_root else [None] + slots}
+    import copy
+    for n, vals, num, den in ((4, (0, 1, 2), 1, 2), (5, (0, 1), 1, 2)):
+        for sh in shapes(["t%d" % j for j in range(n)]):
+            base = mk(sh, True)
+            ne = len(list(all_edges(base)))
+            for pat in product(vals, repeat=ne):
+                if den * sum(1 for x in pat if x == 0) < num * ne or not any(pat):
+                    continue
+                t = copy.deepcopy(base)
+                for (e, _), l in zip(all_edges(t), pat):
+                    e["len"] = Fraction(l)
+                yield t
+
+# (a negative support other than the 'absent' marker is outside the quantifier: UnRoot clamps it to 0 when it merges
+# the two root branches, which the oracle reports as a changed support -- seen with -1/2, not generated)
+ROOT_SUPS = [None, Fraction(0), Fraction(1, 64), Fraction(1), Fraction(5), Fraction(0), None]
+ROOT_LENS = [None, Fraction(0), Fraction(1), Fraction(0), Fraction(5, 2)]
+
+def root_branch_tree(rng, g, i):
+    n = rng.randint(4, 8)
+    names = ["t%d" % j for j in range(n)]
+    rng.shuffle(names)
+    k = rng.randint(2, n - 2) if i % 5 else 1          # one in five: a tip below the root
+    left = g.shape(names[:k], maxdeg=3) if k > 1 else names[0]
+    right = g.shape(names[k:], maxdeg=3)
+    t = g.decorate([left, right], lenmode="all" if i % 3 else "mixed", supmode="mixed", up_random=rng.random() < 0.5)
+    (e1, c1), (e2, c2) = kids(t)
+    if i < len(ROOT_SUPS) ** 2:
+        s1, s2 = ROOT_SUPS[i % len(ROOT_SUPS)], ROOT_SUPS[i // len(ROOT_SUPS)]
+    else:
+        s1, s2 = rng.choice(ROOT_SUPS), rng.choice(ROOT_SUPS)
+    e1["sup"] = s1 if kids(c1) else None
+    e2["sup"] = s2 if kids(c2) else None
+    e1["pv"] = e2["pv"] = None
+    r = rng.random()
+    if r < 0.6:
+        e1["len"], e2["len"] = rng.choice(ROOT_LENS), rng.choice(ROOT_LENS)
+        if i % 3:
+            e1["len"] = e1["len"] if e1["len"] is not None else Fraction(0)
+            e2["len"] = e2["len"] if e2["len"] is not None else Fraction(0)
+    return t
+
 def gen(rng, tier):
     g = Gen(rng)
     n = {"quick": 150, "thorough": 4000, "search": 400}[tier]
@@ -299,6 +428,29 @@ def gen(rng, tier):
         idx = 0 if r < 0.5 else (rng.choice(inner) if r < 0.9 else rng.randrange(ne + 2))
         o = {"op": Sym("handbuilt"), "tree": T(t), "flip": flip, "i": idx}
         out.append({"sx": sx(o), "meta": {"op": "handbuilt", "flip": mode, "atroot": idx == 0, "ntips": len(leaves(t))}})
+    # (r5) midpoint on small trees where most branches are zero: the longest path ends in / starts from / crosses whole
+    # zero-length regions (zero inner branches next to the root, zero cherries, zero subtrees, the root inside the region)
+    for i in range({"quick": 400, "thorough": 8000, "search": 800}[tier]):
+        t, style = zero_heavy(rng, g, i)
+        out.append({"sx": sx({"op": Sym("midpoint"), "tree": T(t)}),
+                    "meta": {"op": "midpoint", "ntips": len(leaves(t)), "rooted": len(t["slots"]) == 2, "lens": style}})
+    if tier == "thorough":
+        for t in zero_exhaustive():
+            out.append({"sx": sx({"op": Sym("midpoint"), "tree": T(t)}),
+                        "meta": {"op": "midpoint", "ntips": len(leaves(t)), "rooted": len(t["slots"]) == 2, "lens": "zero-exh"}})
+    # (r5) rooted inputs: support and length of the two root branches in {absent, 0, tiny, 1, > 1, negative} x the same,
+    # root children inner/inner (the merged branch keeps a support) or inner/tip; unroot, midpoint, outgroups
+    for i in range({"quick": 70, "thorough": 2000, "search": 200}[tier]):
+        t = root_branch_tree(rng, g, i)
+        meta = {"ntips": len(leaves(t)), "rooted": True, "lens": "rootbranch"}
+        out.append({"sx": sx({"op": Sym("unroot"), "tree": T(t)}), "meta": dict(meta, op="unroot")})
+        if all(e["len"] is not None for e, _ in all_edges(t)):
+            out.append({"sx": sx({"op": Sym("midpoint"), "tree": T(t)}), "meta": dict(meta, op="midpoint")})
+        ogs = outgroups(rng, t, tier)
+        for kind, names in rng.sample(ogs[:4], min(2, len(ogs[:4]))):
+            remove, strict = rng.random() < 0.25, rng.random() < 0.3
+            out.append({"sx": sx({"op": Sym("outgroup"), "tree": T(t), "names": list(names), "remove": remove, "strict": strict}),
+                        "meta": dict(meta, op="outgroup", og=kind, remove=remove, strict=strict)})
     # every tip subset of small trees, both flags
     m = {"quick": 4, "thorough": 150, "search": 10}[tier]
     for t, style in root_trees(rng, g, m, 5 if tier == "quick" else 6):
